@@ -1,52 +1,174 @@
-(* Engine `verilog`: the assign clause - what the faithful model says about multi-bit assigns *)
+(* Engine `verilog`: the assign clause. connect_wires_for_assign puts bit k (from the low end) of each side on
+   pin k of the assignment instance (repair of V06-assign-msb-first), _write_assignment writes such an instance
+   back as one slice per side, and reading that text gives the same instance (repair of V04-assign-compose-assert). *)
 From Coq Require Import List ZArith Bool Lia Arith.
 From SV Require Import Fmt.VBits Fmt.VExpr Proofs.VerilogLists Proofs.VerilogSlice Proofs.VerilogPort.
 Import ListNotations.
 Open Scope Z_scope.
 
-Lemma zdown_two h l : l < h -> exists r, zdown h l = h :: (h - 1) :: r.
+(* n consecutive wires of cable c from index l upwards *)
+Definition wrun (c : nat) (l : Z) (n : nat) : list wire := map (fun k => (c, l + Z.of_nat k)) (seq 0 n).
+Definition awidth (e : env) (a : atom) : nat := Z.to_nat (ahi e a - alo e a + 1).
+
+Lemma firstn_seq_le w : forall s n, (w <= n)%nat -> firstn w (seq s n) = seq s w.
+Proof. induction w as [|w IH]; intros s n H; [reflexivity|]. destruct n; [lia|]. cbn. f_equal. apply IH. lia. Qed.
+
+Lemma wrun_length c l n : length (wrun c l n) = n.
+Proof. unfold wrun. rewrite map_length, seq_length. reflexivity. Qed.
+
+Lemma wrun_firstn c l n w : (w <= n)%nat -> firstn w (wrun c l n) = wrun c l w.
+Proof. intro H. unfold wrun. rewrite firstn_map, firstn_seq_le by exact H. reflexivity. Qed.
+
+Lemma wrun_zup c l h : map (fun i => (c, i)) (zup l h) = wrun c l (Z.to_nat (h - l + 1)).
+Proof. unfold zup, wrun. rewrite map_map. reflexivity. Qed.
+
+Lemma wrun_S c l n : wrun c l (S n) = (c, l) :: wrun c (l + 1) n.
 Proof.
-  intro H. unfold zdown. destruct (Z.to_nat (h - l + 1)) as [|[|n]] eqn:E; try lia.
-  exists (map (fun k => h - Z.of_nat k) (seq 2 n)). cbn [seq map].
-  replace (h - Z.of_nat 0) with h by lia. replace (h - Z.of_nat 1) with (h - 1) by lia. reflexivity.
+  unfold wrun. cbn [seq map]. f_equal; [f_equal; lia|].
+  rewrite <- seq_shift, map_map. apply map_ext. intro k. f_equal. lia.
 Qed.
 
-(* the reader puts the MOST significant bit of a multi-bit assign on pin 0 *)
-Lemma read_assign_part e c h l c2 h2 l2 :
-  atom_typed e (APart c h l) -> atom_typed e (APart c2 h2 l2) -> h - l = h2 - l2 ->
-  read_assign e (APart c h l) (APart c2 h2 l2) =
-    Some (combine (map (fun i => (c, i)) (zdown h l)) (map (fun i => (c2, i)) (zdown h2 l2))).
+Lemma wrun_nth c l n k : (k < n)%nat -> nth_error (wrun c l n) k = Some (c, l + Z.of_nat k).
 Proof.
-  intros H1 H2 Hw. unfold read_assign. rewrite (atom_reader e _ H1), (atom_reader e _ H2). cbn [atom_cable ahi alo].
-  rewrite !map_length, !zdown_length. replace (h2 - l2 + 1) with (h - l + 1) by lia. rewrite Nat.min_id.
-  rewrite !firstn_all2 by (rewrite map_length, zdown_length; lia). reflexivity.
+  intro H. unfold wrun. rewrite nth_error_map. rewrite (nth_error_nth' _ 0%nat) by (rewrite seq_length; lia).
+  rewrite seq_nth by lia. reflexivity.
 Qed.
 
-(* ... and the writer then refuses to write the netlist: descending indices look like a concatenation *)
-Theorem assign_multibit_unwritable_lemma : forall e c h l c2 h2 l2,
-  atom_typed e (APart c h l) -> atom_typed e (APart c2 h2 l2) -> h - l = h2 - l2 -> l < h ->
-  exists pins, read_assign e (APart c h l) (APart c2 h2 l2) = Some pins /\ write_assign e pins = None.
+Lemma wrun_last c l n d : (1 <= n)%nat -> last (wrun c l n) d = (c, l + Z.of_nat n - 1).
 Proof.
-  intros e c h l c2 h2 l2 H1 H2 Hw Hlt. eexists. split; [apply read_assign_part; assumption|].
-  destruct (zdown_two h l Hlt) as [r Hr]. destruct (zdown_two h2 l2 ltac:(lia)) as [r2 Hr2].
-  rewrite Hr, Hr2. cbn [map combine]. unfold write_assign. cbn [map fst snd].
-  unfold is_pinset_concatenated. cbn [concat_scan]. rewrite Nat.eqb_refl. cbn [negb andb orb].
-  destruct (Z.eqb_spec (h2 - 1) (h2 + 1)); [lia|]. reflexivity.
+  intro H. destruct n as [|n]; [lia|]. unfold wrun. rewrite seq_S, map_app. cbn [map]. rewrite last_last.
+  f_equal. lia.
 Qed.
 
-(* pin k of the assignment instance carries bit (w-1-k) of both sides, not bit k *)
-Theorem assign_pins_msb_first_lemma : forall e c h l c2 h2 l2 k,
-  atom_typed e (APart c h l) -> atom_typed e (APart c2 h2 l2) -> h - l = h2 - l2 -> 0 <= k <= h - l ->
-  exists pins, read_assign e (APart c h l) (APart c2 h2 l2) = Some pins /\
-    nth_error pins (Z.to_nat k) = Some ((c, h - k), (c2, h2 - k)).
+Lemma wrun_scan c : forall n l li, l = li + 1 -> concat_scan (Some c) false (Some li) (map Some (wrun c l n)) = false.
 Proof.
-  intros e c h l c2 h2 l2 k H1 H2 Hw Hk. eexists. split; [apply read_assign_part; assumption|].
-  assert (G : forall (A B : Type) (l1 : list A) (l2 : list B) i a b, nth_error l1 i = Some a -> nth_error l2 i = Some b ->
-              nth_error (combine l1 l2) i = Some (a, b)).
-  { induction l1 as [|x l1 IH]; intros l2' i a b Ha Hb; destruct i; destruct l2'; cbn in *; try discriminate.
-    - inversion Ha; inversion Hb; reflexivity.
-    - apply IH; assumption. }
-  apply G; rewrite nth_error_map, zdown_nth by lia; cbn; f_equal; f_equal; lia.
+  induction n as [|n IH]; intros l li E; [reflexivity|]. rewrite wrun_S. cbn [map concat_scan].
+  destruct (Z.eqb_spec l (li + 1)); [|lia]. rewrite Nat.eqb_refl. cbn [negb andb orb]. apply IH. reflexivity.
+Qed.
+
+Lemma wrun_not_concat c l n : is_pinset_concatenated (Some c) (map Some (wrun c l n)) = false.
+Proof.
+  destruct n as [|n]; [reflexivity|]. rewrite wrun_S. unfold is_pinset_concatenated. cbn [map concat_scan].
+  rewrite Nat.eqb_refl. cbn [negb andb orb]. apply wrun_scan. reflexivity.
+Qed.
+
+Lemma map_fst_combine {A B} (a : list A) : forall (b : list B), length a = length b -> map fst (combine a b) = a.
+Proof. induction a as [|x a IH]; intros [|y b] H; cbn in *; try reflexivity; try discriminate. f_equal. apply IH. lia. Qed.
+Lemma map_snd_combine {A B} (a : list A) : forall (b : list B), length a = length b -> map snd (combine a b) = b.
+Proof. induction a as [|x a IH]; intros [|y b] H; cbn in *; try reflexivity; try discriminate. f_equal. apply IH. lia. Qed.
+
+Lemma nth_error_combine {A B} (l1 : list A) : forall (l2 : list B) i a b,
+  nth_error l1 i = Some a -> nth_error l2 i = Some b -> nth_error (combine l1 l2) i = Some (a, b).
+Proof.
+  induction l1 as [|x l1 IH]; intros l2' i a b Ha Hb; destruct i; destruct l2'; cbn in *; try discriminate.
+  - inversion Ha; inversion Hb; reflexivity.
+  - apply IH; assumption.
+Qed.
+
+(* ---------- the reader ---------- *)
+Lemma atom_range e a : atom_typed e a ->
+  fst (e (atom_cable a)) <= alo e a /\ alo e a <= ahi e a /\ ahi e a <= fst (e (atom_cable a)) + Z.of_nat (snd (e (atom_cable a))) - 1.
+Proof. intros [Hn Ht]. destruct a; cbn [atom_cable alo ahi] in *; lia. Qed.
+
+Lemma atom_bits_run e a : atom_bits e a = wrun (atom_cable a) (alo e a) (awidth e a).
+Proof. rewrite atom_bits_range, wrun_zup. reflexivity. Qed.
+
+(* whatever the two sides read as (cl[hl:ll], cr[hr:lr], most significant first), pin k gets bit k of both *)
+Lemma read_assign_of_readers e lhs rhs cl hl ll cr hr lr :
+  reader_atom e lhs = Some (map (fun i => (cl, i)) (zdown hl ll)) ->
+  reader_atom e rhs = Some (map (fun i => (cr, i)) (zdown hr lr)) ->
+  let w := Nat.min (Z.to_nat (hl - ll + 1)) (Z.to_nat (hr - lr + 1)) in
+  read_assign e lhs rhs = Some (combine (wrun cl ll w) (wrun cr lr w)).
+Proof.
+  intros Hl Hr w. unfold read_assign. rewrite Hl, Hr. rewrite !map_length, !zdown_length. fold w.
+  rewrite <- !map_rev, !zdown_rev, !wrun_zup. rewrite !wrun_firstn by (unfold w; lia). reflexivity.
+Qed.
+
+Lemma read_assign_run e lhs rhs : atom_typed e lhs -> atom_typed e rhs ->
+  let w := Nat.min (awidth e lhs) (awidth e rhs) in
+  read_assign e lhs rhs = Some (combine (wrun (atom_cable lhs) (alo e lhs) w) (wrun (atom_cable rhs) (alo e rhs) w)).
+Proof. intros Hl Hr. apply read_assign_of_readers; apply atom_reader; assumption. Qed.
+
+(* C06, assign clause: pin k of the assignment instance carries bit k (from the low end) of both sides; the
+   instance is as wide as the narrower side *)
+Theorem assign_pins_lsb_lemma : forall e lhs rhs, atom_typed e lhs -> atom_typed e rhs ->
+  let w := Nat.min (awidth e lhs) (awidth e rhs) in
+  exists pins, read_assign e lhs rhs = Some pins /\ length pins = w /\
+    forall k, (k < w)%nat ->
+      nth_error pins k = Some ((atom_cable lhs, alo e lhs + Z.of_nat k), (atom_cable rhs, alo e rhs + Z.of_nat k)) /\
+      nth_error (atom_bits e lhs) k = Some (atom_cable lhs, alo e lhs + Z.of_nat k) /\
+      nth_error (atom_bits e rhs) k = Some (atom_cable rhs, alo e rhs + Z.of_nat k).
+Proof.
+  intros e lhs rhs Hl Hr w. eexists. split; [apply read_assign_run; assumption|]. fold w. split.
+  - rewrite combine_length, !wrun_length. lia.
+  - intros k Hk. split; [apply nth_error_combine; apply wrun_nth; exact Hk|].
+    rewrite !atom_bits_run. split; apply wrun_nth; unfold w in Hk; lia.
+Qed.
+
+(* ---------- the writer, and the reader on what it wrote ---------- *)
+Lemma brk_atom_reader e c b :
+  reader_atom e (brk_atom c b) =
+  get_wires (fst (e c)) (cable_wires c (fst (e c)) (snd (e c))) (fst (read_brackets b)) (snd (read_brackets b)).
+Proof. destruct b; reflexivity. Qed.
+
+Lemma slice_reread : forall e c l h, piece_ok e (c, l, h) ->
+  exists b, write_brackets (fst (e c)) (Z.of_nat (snd (e c))) (Some l) (Some h) = Some b /\
+            reader_atom e (brk_atom c b) = Some (map (fun i => (c, i)) (zdown h l)).
+Proof.
+  intros e c l h [[H1 H2] [[H3 H4] H5]].
+  destruct (slice_inverse_lemma wire (cable_wires c (fst (e c)) (snd (e c))) (fst (e c)) true l h)
+    as [b [t [Hb [Hg [Hlen Hnth]]]]]; try rewrite cable_wires_length; try lia.
+  rewrite cable_wires_length in Hb. exists b. split; [exact Hb|].
+  rewrite brk_atom_reader, Hg. f_equal. apply list_eq_nth_error.
+  - rewrite map_length, zdown_length. exact Hlen.
+  - intros k Hk. rewrite Hnth by exact Hk. rewrite nth_error_map, zdown_nth by lia.
+    rewrite cable_wires_nth by lia. cbn. f_equal. f_equal. lia.
+Qed.
+
+Lemma write_assign_runs e co lo ci li w : (1 <= w)%nat ->
+  write_assign e (combine (wrun co lo w) (wrun ci li w)) =
+  match write_brackets (fst (e co)) (Z.of_nat (snd (e co))) (Some lo) (Some (lo + Z.of_nat w - 1)),
+        write_brackets (fst (e ci)) (Z.of_nat (snd (e ci))) (Some li) (Some (li + Z.of_nat w - 1)) with
+  | Some bo, Some bi => Some ((co, bo), (ci, bi))
+  | _, _ => None
+  end.
+Proof.
+  intro H. unfold write_assign.
+  rewrite map_fst_combine, map_snd_combine by (rewrite !wrun_length; reflexivity).
+  pose proof (wrun_not_concat co lo w) as No. pose proof (wrun_not_concat ci li w) as Ni.
+  pose proof (wrun_last co lo w (co, lo) H) as Lo. pose proof (wrun_last ci li w (ci, li) H) as Li.
+  assert (Ho : exists r, wrun co lo w = (co, lo) :: r) by (destruct w; [lia|]; rewrite wrun_S; eauto).
+  assert (Hi : exists r, wrun ci li w = (ci, li) :: r) by (destruct w; [lia|]; rewrite wrun_S; eauto).
+  destruct Ho as [ro Ho]. destruct Hi as [ri Hi].
+  rewrite Ho in *. rewrite Hi in *. cbv zeta. cbv iota. rewrite No, Ni, Lo, Li. reflexivity.
+Qed.
+
+(* C04, assign clause: EVERY assign the reader accepts (any two atoms - identifier, bit, part-select - of any
+   cables, any bases, equal or different widths) is written back as one slice per side, and reading that text gives
+   the same pins again, pin by pin *)
+Theorem assign_roundtrip_lemma : forall e lhs rhs, atom_typed e lhs -> atom_typed e rhs ->
+  exists pins co bo ci bi,
+    read_assign e lhs rhs = Some pins /\
+    write_assign e pins = Some ((co, bo), (ci, bi)) /\
+    read_assign e (brk_atom co bo) (brk_atom ci bi) = Some pins.
+Proof.
+  intros e lhs rhs Hl Hr. pose proof (read_assign_run e lhs rhs Hl Hr) as R. cbv zeta in R.
+  set (w := Nat.min (awidth e lhs) (awidth e rhs)) in *.
+  destruct (atom_range e lhs Hl) as (L1 & L2 & L3). destruct (atom_range e rhs Hr) as (R1 & R2 & R3).
+  assert (W1 : (1 <= w)%nat) by (unfold w, awidth; lia).
+  assert (Wl : (w <= awidth e lhs)%nat) by (unfold w; lia). assert (Wr : (w <= awidth e rhs)%nat) by (unfold w; lia).
+  unfold awidth in Wl, Wr.
+  destruct (slice_reread e (atom_cable lhs) (alo e lhs) (alo e lhs + Z.of_nat w - 1)) as (bo & Wo & Ro);
+    [unfold piece_ok, in_cable; lia|].
+  destruct (slice_reread e (atom_cable rhs) (alo e rhs) (alo e rhs + Z.of_nat w - 1)) as (bi & Wi & Ri);
+    [unfold piece_ok, in_cable; lia|].
+  exists (combine (wrun (atom_cable lhs) (alo e lhs) w) (wrun (atom_cable rhs) (alo e rhs) w)), (atom_cable lhs), bo, (atom_cable rhs), bi.
+  split; [exact R|]. split.
+  - rewrite write_assign_runs by exact W1. rewrite Wo, Wi. reflexivity.
+  - rewrite (read_assign_of_readers e _ _ _ _ _ _ _ _ Ro Ri).
+    replace (Z.to_nat (alo e lhs + Z.of_nat w - 1 - alo e lhs + 1)) with w by lia.
+    replace (Z.to_nat (alo e rhs + Z.of_nat w - 1 - alo e rhs + 1)) with w by lia.
+    rewrite Nat.min_id. reflexivity.
 Qed.
 
 (* single-bit assigns are written and read back unchanged *)
@@ -70,9 +192,9 @@ Proof.
   rewrite !Nat.eqb_refl. cbn [negb andb orb]. rewrite Wo, Wi. reflexivity.
 Qed.
 
-(* The assign clauses of C04 / C06 as the properties state them, and their refutation by the faithful model
-   (witness: assign a[1:0] = b[1:0]; replayed on the implementation by corpus/verilog/a1-multi-bit-assign.json
-   and c04-multi-bit-assign.json) *)
+(* The assign clauses of C04 / C06 as the properties state them. Both were refuted by the model of the reader
+   that wired the most significant bit to pin 0 (former findings V04-assign-compose-assert, V06-assign-msb-first;
+   regression witness: assign a[1:0] = b[1:0], corpus/verilog/a1-multi-bit-assign.json, c04-multi-bit-assign.json) *)
 Definition assign_writable : Prop := forall e lhs rhs pins,
   atom_typed e lhs -> atom_typed e rhs -> read_assign e lhs rhs = Some pins -> write_assign e pins <> None.
 
@@ -81,24 +203,22 @@ Definition assign_lsb_pins : Prop := forall e c h l c2 h2 l2 pins k,
   read_assign e (APart c h l) (APart c2 h2 l2) = Some pins -> 0 <= k <= h - l ->
   nth_error pins (Z.to_nat k) = Some ((c, l + k), (c2, l2 + k)).
 
+Theorem assign_writable_holds_lemma : assign_writable.
+Proof.
+  intros e lhs rhs pins Hl Hr R. destruct (assign_roundtrip_lemma e lhs rhs Hl Hr) as (p & co & bo & ci & bi & R' & Wr & _).
+  rewrite R in R'. inversion R'; subst. rewrite Wr. discriminate.
+Qed.
+
+Theorem assign_lsb_pins_holds_lemma : assign_lsb_pins.
+Proof.
+  intros e c h l c2 h2 l2 pins k Hl Hr Hw R Hk.
+  destruct (assign_pins_lsb_lemma e _ _ Hl Hr) as (p & R' & _ & N). rewrite R in R'. inversion R'; subst p.
+  destruct Hl as (_ & ? & ? & ?). destruct Hr as (_ & ? & ? & ?).
+  destruct (N (Z.to_nat k)) as (N1 & _); [unfold awidth; cbn [alo ahi]; lia|].
+  rewrite N1. cbn [atom_cable alo]. repeat f_equal; lia.
+Qed.
+
 Definition wit_env : env := fun _ => (0, 2%nat).
 
 Lemma wit_typed c : atom_typed wit_env (APart c 1 0).
 Proof. unfold atom_typed. cbn. lia. Qed.
-
-Theorem assign_writable_refuted_lemma : ~ assign_writable.
-Proof.
-  intro H.
-  destruct (assign_multibit_unwritable_lemma wit_env 0%nat 1 0 1%nat 1 0 (wit_typed _) (wit_typed _) eq_refl ltac:(lia))
-    as [pins [Hr Hw]].
-  exact (H wit_env _ _ pins (wit_typed _) (wit_typed _) Hr Hw).
-Qed.
-
-Theorem assign_lsb_pins_refuted_lemma : ~ assign_lsb_pins.
-Proof.
-  intro H.
-  destruct (assign_pins_msb_first_lemma wit_env 0%nat 1 0 1%nat 1 0 0 (wit_typed _) (wit_typed _) eq_refl ltac:(lia))
-    as [pins [Hr Hn]].
-  specialize (H wit_env 0%nat 1 0 1%nat 1 0 pins 0 (wit_typed _) (wit_typed _) eq_refl Hr ltac:(lia)).
-  rewrite Hn in H. discriminate.
-Qed.
